@@ -70,6 +70,7 @@ _NOT_COVERED_BLOCKS = ['all floating-point blocks (FIR/FFT/Hilbert/IIR/demod/sym
                        'Delay::set_delay', 'every derive-generated sync work()']
 
 _BU = ['skip', 'delay', 'vsrc', 'v2s', 'consts']
+_FIR = ['fir']
 P['C08'] = {
     'units': list(_BU),
     'technique': 'Verus: each covered work() proved to preserve out.produced == F(in.consumed) under a stream-API contract with a universally quantified environment (any window lengths)',
@@ -78,28 +79,28 @@ P['C08'] = {
     'not_covered': _NOT_COVERED_BLOCKS, 'assumptions': _BLOCK_ASSUME,
 }
 P['C09'] = {
-    'units': list(_BU),
+    'units': list(_BU) + _FIR,
     'technique': 'Verus: call-site preconditions of consume/produce (n <= window, window belongs to the stream, not stale) and verdict postconditions on each covered work()',
     'level_text': 'Deductive proof for the same subset: every consume/produce call site stays within its window; WaitForStream(s, need) is returned only when stream s offered fewer than need in this call; Again only from a call that consumed or produced; an empty input window yields a wait on the input. No window escapes work() (windows are moved into consume/produce or dropped; checked syntactically by rule X-WIN).',
     'level_note': 'Subset only. "holds no window after return" is a syntactic check of the extractor, stated as such.',
     'not_covered': _NOT_COVERED_BLOCKS + ['graph.rs / mtgraph.rs handling of the verdicts'], 'assumptions': _BLOCK_ASSUME,
 }
 P['C10'] = {
-    'units': list(_BU) + ['kani:lfsr'],
+    'units': list(_BU) + ['kernels', 'kani:lfsr'],
     'technique': 'Verus stream-function invariants (spec function F per block written from its documentation) + Kani full-domain proofs of the LFSR steps',
     'level_text': 'Deductive proof for a stated subset: Skip (drop first k), Delay (d defaults then input), VectorSource (data^repeat), VecToStream (packets concatenated), ConstantSource, NullSink emit exactly F(input) with exact counts; descrambler and IL2P LFSR steps equal their documented recurrences for all register/mask/seed values.',
     'level_note': 'Subset only; float arithmetic blocks, slicer, RTL-SDR decoder, correlators, StreamToPdu, burst tagger, text formatter, FFT framing and the generated per-sample loop are not decided.',
     'not_covered': _NOT_COVERED_BLOCKS, 'assumptions': _BLOCK_ASSUME,
 }
 P['C12'] = {
-    'units': ['ring', 'skip', 'delay', 'vsrc', 'v2s'],
+    'units': ['ring', 'skip', 'delay', 'vsrc', 'v2s', 'fir'],
     'technique': 'Verus: caller-against-callee check of the stream contract tag.pos < n at every produce() call site + tag-transfer clause of each block invariant',
     'level_text': 'Deductive proof for a stated subset: (a) every produce(n, tags) call site in covered bodies establishes tag.pos < n (the precondition Buffer::produce carries in unit ring); (b) dst.tags == G(src tags of consumed samples): identity after the skip for Skip, shift by the delay for Delay, marker tags once per repetition for VectorSource, start/end per packet for VecToStream.',
     'level_note': 'Subset only: FirFilter (/deci), Hilbert, FftFilter, correlator, burst tagger, Tee and macro-generated tag forwarding are not decided.',
     'not_covered': _NOT_COVERED_BLOCKS + ['FirFilter / FftFilter / Hilbert tag forwarding'], 'assumptions': _BLOCK_ASSUME,
 }
 P['C15'] = {
-    'units': ['skip', 'delay', 'v2s', 'kani:lfsr', 'kani:hdlc', 'kani:codecs'],
+    'units': ['skip', 'delay', 'v2s', 'fir', 'kani:lfsr', 'kani:hdlc', 'kani:codecs'],
     'technique': 'Verus panic-freedom obligations (refuse/overflow/bounds/callee preconditions unreachable for arbitrary sample values) + Kani totality harnesses over all input bytes',
     'level_text': 'Deductive proof for a stated subset: in the covered work() bodies no panic site is reachable for any sample values; bits2byte, calc_crc (lengths 1..2, thorough ..4) and the codecs\' parse never panic for any byte values; the two LFSR steps are checked for every input byte.',
     'level_note': 'Subset only: AuDecode header arithmetic, HdlcDeframer::update_state, wpcr, sigmf, StreamToPdu, symbol sync, zero crossing are not decided.',
